@@ -3272,12 +3272,16 @@ XPath::stepPattern(
 
             opPos += 3;
 
-            score = NodeTester(
-                            *this,
-                            executionContext,
-                            opPos,
-                            argLen,
-                            XPathExpression::eFROM_ATTRIBUTES)(*context, context->getNodeType());
+            // Only an attribute node is on the attribute axis of its parent...
+            if (context->getNodeType() == XalanNode::ATTRIBUTE_NODE)
+            {
+                score = NodeTester(
+                                *this,
+                                executionContext,
+                                opPos,
+                                argLen,
+                                XPathExpression::eFROM_ATTRIBUTES)(*context, context->getNodeType());
+            }
         }
         break;
 
